@@ -1267,12 +1267,9 @@ impl<'ast, 'res> Resolver<'ast, 'res> {
                             Some(ValueType::String)
                         }
                         (ValueType::Number, ValueType::Number) => Some(ValueType::Number),
+                        // With an operand of unknown type the sum can be a number or a string.
                         (ValueType::Dynamic, ..) | (.., ValueType::Dynamic) => {
-                            if l == ValueType::Number || r == ValueType::Number {
-                                Some(ValueType::Number)
-                            } else {
-                                Some(ValueType::String)
-                            }
+                            Some(ValueType::Dynamic)
                         }
                         _ => None,
                     },
@@ -1304,14 +1301,14 @@ impl<'ast, 'res> Resolver<'ast, 'res> {
                 let t = self.infer_expr_type(expr)?;
                 match op {
                     UnaryOp::Not => {
-                        if t == ValueType::Bool || t == ValueType::Null {
+                        if t == ValueType::Bool || t == ValueType::Null || t == ValueType::Dynamic {
                             Some(ValueType::Bool)
                         } else {
                             None
                         }
                     }
                     UnaryOp::Minus => {
-                        if t == ValueType::Number {
+                        if t == ValueType::Number || t == ValueType::Dynamic {
                             Some(ValueType::Number)
                         } else {
                             None
